@@ -286,6 +286,14 @@ Section Keep.
 
   Lemma parse_block_kb fuel s : KB s (parse_block B fuel s).
   Proof. unfold parse_block. apply block_with_kb. apply stmt_kb. Qed.
+
+  Lemma on_params_loop_kb : forall fuel acc s, KB s (on_params_loop B fuel acc s).
+  Proof.
+    induction fuel as [|f IH]; intros acc s a s' H; [discriminate|]. cbn [on_params_loop] in H.
+    destruct (is_at_eol (cs s)); [apply Ok_inj in H as [_ ->]; reflexivity|].
+    destruct (parse_typed_decl B (snd (passert T_IDENT s))) as [d s1| |] eqn:P; try discriminate H.
+    apply typed_decl_kb in P. apply IH in H. rewrite kb_passert in P. congruence.
+  Qed.
 End Keep.
 
 (* ================================================================ *)
@@ -562,6 +570,162 @@ Section Funcs.
     - change (hds (finish_end s4)) with (snd (kb (finish_end s4))). rewrite kb_finish_end, K4. reflexivity.
   Qed.
 
+  (* ---------- parseEventHandler ---------- *)
+  Lemma ty_eqb_rfl t : ty_eqb t t = true.
+  Proof. induction t; cbn [ty_eqb]; auto. Qed.
+
+  (* name:type  as parseTypedDecl reads it (a parameter of an event handler) *)
+  Lemma typed_decl_rt s x ty w rest0 e :
+    at_toks s (ident_tok x :: mk T_COLON :: render_ty ty ++ wsl w ++ rest0) e -> is_ws (look0 rest0) = false ->
+    exists s', parse_typed_decl B s = Ok (x, pos s, Some ty) s' /\ at_toks s' rest0 e.
+  Proof.
+    intros Hat Hn. pose proof Hat as (Hr & Hw & He). unfold parse_typed_decl.
+    assert (Pa : passert T_IDENT s = (true, s)) by (apply passert_ok; unfold ct, cur_t, cur; rewrite Hr; reflexivity).
+    rewrite Pa. cbn [snd]. unfold cur. rewrite Hr. cbn [look0 hd tlit ident_tok].
+    assert (Hth : is_ws (look0 (render_ty ty ++ wsl w ++ rest0)) = false) by (destruct ty; reflexivity).
+    assert (Hs : skip1 (render_ty ty ++ wsl w ++ rest0) = render_ty ty ++ wsl w ++ rest0) by (destruct ty; reflexivity).
+    assert (A1 : at_toks (adv s) (mk T_COLON :: render_ty ty ++ wsl w ++ rest0) e).
+    { apply (adv_at s (ident_tok x) (mk T_COLON :: render_ty ty ++ wsl w ++ rest0) e Hat). reflexivity. }
+    rewrite (passert_ok T_COLON (adv s)) by (destruct A1 as (R1 & _); unfold ct, cur_t, cur; rewrite R1; reflexivity). cbn [snd].
+    assert (A2 : at_toks (adv (adv s)) (render_ty ty ++ wsl w ++ rest0) e).
+    { rewrite <- Hs. apply (adv_at (adv s) (mk T_COLON) (render_ty ty ++ wsl w ++ rest0) e A1). rewrite Hs. exact Hth. }
+    unfold p_type, expr_call. destruct A2 as (R2 & W2 & E2).
+    assert (W2' : is_wss (cs (adv (adv s))) = false) by (unfold is_wss; rewrite W2; reflexivity).
+    assert (Hfu : ty_size ty <= efuel (cs (adv (adv s)))).
+    { pose proof (ty_size_le ty). unfold efuel, here. rewrite R2, app_length. lia. }
+    rewrite (parse_type_spec ty (cs (adv (adv s))) w rest0 _ R2 W2' Hn Hfu).
+    destruct (consume_ty_spec ty (cs (adv (adv s))) w rest0 R2 W2' Hn) as (C1 & C2 & C3).
+    eexists. split; [reflexivity|]. apply collect_at; auto; [rewrite C2; exact W2 | rewrite C3; exact E2].
+  Qed.
+
+  Definition param_ty (p : str * fty) : option ty := fty_ty (snd p).
+
+  Lemma params_split ps q : exists w, params_toks ps ++ mk T_NL :: q = wsl w ++ skip1 (params_toks ps ++ mk T_NL :: q) /\
+    is_ws (look0 (skip1 (params_toks ps ++ mk T_NL :: q))) = false.
+  Proof.
+    destruct ps as [|p ps]; [exists false; split; reflexivity|]. exists true. split; reflexivity.
+  Qed.
+
+  Lemma on_params_rt q : forall ps fuel acc s, forallb param_okb ps = true -> List.length ps < fuel ->
+    at_toks s (skip1 (params_toks ps ++ mk T_NL :: q)) [] ->
+    exists params s', on_params_loop B fuel acc s = Ok (rev acc ++ params) s' /\
+      map (fun d : str * nat * option ty => fst (fst d)) params = map fst ps /\ map snd params = map param_ty ps /\
+      at_toks s' (mk T_NL :: q) [].
+  Proof.
+    induction ps as [|p ps IH]; intros fuel acc s Hok Hfu Hat; (destruct fuel as [|fuel]; [cbn in Hfu; lia|]).
+    - cbn [params_toks flat_map app skip1 is_ws ttype mk] in Hat. exists [], s. cbn [on_params_loop].
+      assert (E : is_at_eol (cs s) = true) by (destruct Hat as (R & _); unfold is_at_eol, cur_t, cur; rewrite R; reflexivity).
+      rewrite E, app_nil_r. auto.
+    - cbn [forallb] in Hok. apply andb_true_iff in Hok as [Hp Hok]. unfold param_okb in Hp. apply andb_true_iff in Hp as [Hx Hty].
+      destruct (fty_ty (snd p)) as [ty|] eqn:Ety; [|discriminate Hty].
+      unfold params_toks in Hat. cbn [flat_map] in Hat. fold (params_toks ps) in Hat. rewrite <- app_assoc in Hat.
+      unfold param_toks, ty_toks in Hat. rewrite Ety in Hat. cbn [app skip1 is_ws ttype mk] in Hat. rewrite <- ?app_assoc in Hat.
+      destruct (params_split ps q) as (w & Ew & Hnw). rewrite Ew in Hat.
+      destruct (typed_decl_rt s (fst p) ty w _ [] Hat Hnw) as (s1 & P & A1).
+      cbn [on_params_loop].
+      assert (E : is_at_eol (cs s) = false) by (destruct Hat as (R & _); unfold is_at_eol, cur_t, cur; rewrite R; reflexivity).
+      rewrite E. rewrite (passert_ok T_IDENT s) by (destruct Hat as (R & _); unfold ct, cur_t, cur; rewrite R; reflexivity).
+      cbn [snd]. rewrite P.
+      destruct (IH fuel ((fst p, pos s, Some ty) :: acc) s1 Hok ltac:(cbn [List.length] in Hfu; lia) A1) as (params & s' & PL & M1 & M2 & A').
+      exists ((fst p, pos s, Some ty) :: params), s'. split; [rewrite PL; cbn [rev]; rewrite <- app_assoc; reflexivity|].
+      cbn [map fst snd]. unfold param_ty at 1. rewrite Ety, M1, M2. auto.
+  Qed.
+
+  Lemma add_event_params_ok : forall params ex s G1, scs s <> [] -> fns s = F ->
+    map snd params = map Some ex ->
+    declare_all TB (map (fun d : str * nat * option ty => fst (fst d)) params) (abs s) = Some G1 ->
+    cs (add_event_params B params ex s) = cs s /\ abs (add_event_params B params ex s) = G1 /\
+    scs (add_event_params B params ex s) <> [] /\ frames (add_event_params B params ex s) = frames s /\
+    fns (add_event_params B params ex s) = F /\ kb (add_event_params B params ex s) = kb s /\
+    sused (add_event_params B params ex s) = sused s.
+  Proof.
+    induction params as [|[[n p] t] l IH]; intros ex s G1 N Fn Hty H.
+    - cbn [map declare_all] in H. injection H as <-. cbn [add_event_params]. repeat split; auto.
+    - destruct ex as [|e ex]; [discriminate Hty|]. cbn [map snd] in Hty. injection Hty as Ht Hty. subst t.
+      cbn [map fst declare_all] in H. destruct (declare TB true n (abs s)) as [G'|] eqn:D; [|discriminate H].
+      cbn [add_event_params]. pose proof (vvd_param n p s G' Fn D) as V. rewrite V. cbn [snd]. rewrite ty_eqb_rfl.
+      pose proof (declare_sim B n p true s ltac:(rewrite V; reflexivity) N) as Ds. rewrite Fn in Ds. fold TB in Ds. rewrite D in Ds. injection Ds as Ds.
+      assert (N2 : scs (scope_set n p s) <> []) by (eapply scs_of_frames; [apply frames_scope_set|exact N]).
+      destruct (IH ex (scope_set n p s) G1 N2 ltac:(rewrite fns_scope_set; exact Fn) Hty ltac:(rewrite <- Ds; exact H)) as (C & A & N3 & Fr & Fn3 & K & U).
+      rewrite C, cs_scope_set, A, Fr, frames_scope_set, Fn3, K, kb_scope_set, U, sused_scope_set. repeat split; auto.
+  Qed.
+
+  Definition hd_fr : frs := (true, false, false) :: top_fr.
+
+  Lemma on_rt f s n ps body r G ex G1 :
+    ident_text n = true -> forallb param_okb ps = true ->
+    lookup_ev n (b_events B) = Some ex -> (ps = [] \/ map param_ty ps = map Some ex) -> mem_str n (hds s) = false ->
+    declare_all TB (map fst ps) ([] :: G) = Some G1 ->
+    boks B F hd_fr G1 false false body -> body_trees false body <> [] ->
+    S (szl body) <= f ->
+    ST F s (toks_of_pieces (fmt_stmt fx 0 (FmtAst.SOn n ps [] body [])) ++ mk T_NL :: r) G top_fr ->
+    is_ws (look0 (skip1 r)) = false ->
+    exists s', parse_event_handler B f s = Ok (Some (stmt_tree (FmtAst.SOn n ps [] body []))) s' /\
+               at_toks s' (skip1 r) [] /\ peek_ok s' (skip1 r) /\ kb s' = (bodies s, n :: hds s).
+  Proof.
+    intros Hn Hps Hev Hex Hhd Hdecl Hb Hne Hf HST Hnext.
+    rewrite (on_toks n ps body r Hn Hps) in HST. rewrite stmt_tree_on.
+    pose proof HST as (Hat & Hpk & N & U & A & Fr & Fn).
+    unfold parse_event_handler. cbv zeta.
+    set (q := body_toks fx 1 false body ++ mk T_END :: mk T_NL :: r) in *.
+    assert (A1 : at_toks (adv s) (ident_tok n :: params_toks ps ++ mk T_NL :: q) []).
+    { apply (adv_at s (mk T_ON) _ [] Hat). reflexivity. }
+    rewrite (passert_ok T_IDENT (adv s)) by (destruct A1 as (R1 & _); unfold ct, cur_t, cur; rewrite R1; reflexivity).
+    cbn [negb]. cbv beta iota.
+    assert (Cu : tlit (cur (cs (adv s))) = n) by (destruct A1 as (R1 & _); unfold cur; rewrite R1; reflexivity).
+    rewrite Cu. change (mem_str n (hds (adv s))) with (mem_str n (hds s)). rewrite Hhd, Hev. cbv beta iota.
+    match goal with |- context[on_params_loop B _ [] (adv ?x)] => set (s3 := x) end.
+    assert (E3 : cs s3 = cs (adv s) /\ kb s3 = (bodies s, n :: hds s) /\ abs s3 = abs s /\ fns s3 = fns s /\ sused s3 = sused (adv s) /\ frames s3 = frames s).
+    { unfold s3. repeat split; reflexivity. }
+    destruct E3 as (C3 & K3 & Ab3 & Fn3 & U3 & Fr3).
+    destruct (params_split ps q) as (w & Ew & Hnw).
+    assert (A3 : at_toks (adv s3) (skip1 (params_toks ps ++ mk T_NL :: q)) []).
+    { apply (adv_at s3 (ident_tok n) _ []); [unfold at_toks; rewrite C3; exact A1|exact Hnw]. }
+    assert (Hlen : List.length ps < S (pos s3)).
+    { unfold pos, here. rewrite C3. destruct A1 as (R1 & _). rewrite R1. cbn [List.length]. rewrite app_length.
+      unfold params_toks. clear. induction ps as [|p l IH]; [cbn; lia|]. cbn [flat_map List.length]. rewrite app_length. cbn [List.length] in *. lia. }
+    destruct (on_params_rt q ps (S (pos s3)) [] (adv s3) Hps Hlen A3) as (params & s4 & PL & M1 & M2 & A4).
+    rewrite PL. cbn [rev app]. cbv beta iota.
+    assert (Q4 : serrs s4 = []) by (destruct A4 as (_ & _ & E); exact E).
+    destruct (on_params_loop_sim B _ _ _ _ _ PL Q4 ltac:(rewrite sused_adv, U3, sused_adv; exact U)) as (Ab4 & Fn4 & U4).
+    destruct (on_params_loop_sn B _ _ _ _ _ PL Q4) as (_ & Fr4).
+    pose proof (on_params_loop_kb B _ _ _ _ _ PL) as K4.
+    assert (Hq : is_ws (look0 (skip1 q)) = false).
+    { unfold q. apply (body_no_ws B fx F 0) with (fr := hd_fr) (G := G1) (t := false); [reflexivity|exact Hb]. }
+    set (s5 := push_scope true false false (apnl s4)).
+    assert (N5 : scs s5 <> []) by (unfold s5, push_scope; cbn [with_scs scs]; discriminate).
+    assert (Ab5 : abs s5 = [] :: G) by (unfold s5; rewrite abs_push_scope, abs_apnl, Ab4, abs_adv, Ab3, A; reflexivity).
+    assert (Fn5 : fns s5 = F) by (unfold s5; rewrite fns_push_scope, fns_apnl, Fn4, fns_adv, Fn3; exact Fn).
+    assert (Fr5 : frames s5 = hd_fr).
+    { unfold s5. rewrite frames_push_scope, frames_apnl, Fr4, frames_adv, Fr3, Fr. reflexivity. }
+    assert (U5 : sused s5 = []) by (unfold s5; rewrite sused_push_scope, sused_apnl; exact U4).
+    assert (K5 : kb s5 = (bodies s, n :: hds s)) by (unfold s5; rewrite kb_push_scope, kb_apnl, K4, kb_adv; exact K3).
+    assert (C5 : at_toks s5 (skip1 q) [] /\ peek_ok s5 (skip1 q)).
+    { split; [exact (apnl_nl s4 q [] A4 Hq) | exact (apnl_peek s4 q [] A4)]. }
+    (* the parameters *)
+    set (s6 := match params, Some ex with
+               | _ :: _, Some ex0 => add_event_params B params ex0 (if Nat.eqb (List.length params) (List.length ex0) then s5 else serr K_event_param_count s5)
+               | _, _ => s5
+               end).
+    assert (H6 : cs s6 = cs s5 /\ abs s6 = G1 /\ scs s6 <> [] /\ frames s6 = frames s5 /\ fns s6 = F /\ kb s6 = kb s5 /\ sused s6 = sused s5).
+    { unfold s6. destruct params as [|d ds] eqn:Ep.
+      - destruct ps as [|p0 ps0]; [|discriminate M1]. cbn [map declare_all] in Hdecl. injection Hdecl as <-. repeat split; auto.
+      - rewrite <- Ep in *. destruct Hex as [->|Hex]; [rewrite Ep in M1; discriminate M1|].
+        assert (Hl : Nat.eqb (List.length params) (List.length ex) = true).
+        { apply Nat.eqb_eq. rewrite <- (map_length snd params), M2, Hex, map_length. reflexivity. }
+        rewrite Hl. apply add_event_params_ok; auto; [rewrite M2; exact Hex | rewrite M1, Ab5; exact Hdecl]. }
+    destruct H6 as (C6 & Ab6 & N6 & Fr6 & Fn6 & K6 & U6).
+    assert (HST6 : ST F s6 (skip1 q) G1 hd_fr).
+    { destruct C5 as [C5a C5b]. split; [unfold at_toks; rewrite C6; exact C5a|]. split; [unfold peek_ok; rewrite C6; exact C5b|].
+      split; [exact N6|]. split; [rewrite U6; exact U5|]. split; [exact Ab6|]. split; [rewrite Fr6; exact Fr5|exact Fn6]. }
+    destruct (block_rt B fx F 0 f false s6 body (mk T_END :: mk T_NL :: r) (mk T_END) (mk T_NL :: r) G1 hd_fr
+                Hb (body_roundtrip B BT fx F _ _ _ _ _ Hb) Hne Hf eq_refl eq_refl HST6) as (s7 & G' & PB & HST7 & _).
+    fold s5. fold s6. unfold parse_block. rewrite PB. cbv beta iota.
+    destruct (finish_end_rt F s7 r G' _ HST7 Hnext) as (A8 & P8).
+    eexists. split; [rewrite M1; reflexivity|]. split; [exact A8|]. split; [exact P8|].
+    rewrite kb_pop_scope, kb_finish_end, (block_with_kb (parse_statement B f) (stmt_kb B f) f false s6 _ s7 PB), K6. exact K5.
+  Qed.
+
   (* ---------- the statements of a program with func declarations (parseProgram's loop) ---------- *)
   (* the tree of the re-parse: blank statements squeezed as the formatter squeezes them, and one empty
      statement where formatProgram inserts a blank line (after the statements whose index is in nlAfter) *)
@@ -578,6 +742,12 @@ Section Funcs.
     | x :: t => if is_blank x then (if e then psz nl (S i) true t else S (psz nl (S i) true t))
                 else S (sz x + (if mem_nat i nl then 1 else 0) + psz nl (S i) false t)
     end.
+
+  Lemma prog_trees_plain : forall l i e, prog_trees [] i e l = body_trees e l.
+  Proof.
+    induction l as [|x l IH]; intros i e; [reflexivity|]. cbn [prog_trees body_trees mem_nat app].
+    destruct (is_blank x); [destruct e|]; rewrite IH; reflexivity.
+  Qed.
 
   Definition nl_toks (nl : list nat) (i : nat) : list token := if mem_nat i nl then [mk T_NL] else [].
 
@@ -603,7 +773,15 @@ Section Funcs.
       (fi_ret fi = true -> existsb always_terms (body_trees false body) = true) ->
       scope_stmt TB (stmt_tree (FmtAst.SFunc n rt ps v [] body [])) G = Some G' ->
       fpoks nl (S i) (n :: bd) hs G' false rest Gout ->
-      fpoks nl i bd hs G e (FmtAst.SFunc n rt ps v [] body [] :: rest) Gout.
+      fpoks nl i bd hs G e (FmtAst.SFunc n rt ps v [] body [] :: rest) Gout
+  | fp_on i bd hs G e n ps body ex G1 rest G' Gout :
+      ident_text n = true -> forallb param_okb ps = true ->
+      lookup_ev n (b_events B) = Some ex -> (ps = [] \/ map param_ty ps = map Some ex) -> mem_str n hs = false ->
+      declare_all TB (map fst ps) ([] :: G) = Some G1 ->
+      boks B F hd_fr G1 false false body -> body_trees false body <> [] ->
+      scope_stmt TB (stmt_tree (FmtAst.SOn n ps [] body [])) G = Some G' ->
+      fpoks nl (S i) bd (n :: hs) G' false rest Gout ->
+      fpoks nl i bd hs G e (FmtAst.SOn n ps [] body [] :: rest) Gout.
 
   Definition top_tok (t : token) : Prop :=
     match ttype t with T_IDENT | T_RETURN | T_BREAK | T_WHILE | T_IF | T_FOR | T_FUNC | T_ON | T_NL => True | _ => False end.
@@ -617,13 +795,16 @@ Section Funcs.
     ptoks nl i e body = [] \/ exists t0 ts, ptoks nl i e body = t0 :: ts /\ top_tok t0.
   Proof.
     induction 1 as [i bd hs G e | i bd hs G e rest Gout Hp IH | i bd hs G e st rest G' Gout Hbl Hso Hat Hsc Hp IH
-                   | i bd hs G e n rt ps v body fi G1 rest G' Gout Hn Hrt Hps Hv Hsig Hbd Hd Hb Hne Hterm Hsc Hp IH].
+                   | i bd hs G e n rt ps v body fi G1 rest G' Gout Hn Hrt Hps Hv Hsig Hbd Hd Hb Hne Hterm Hsc Hp IH
+                   | i bd hs G e n ps body ex G1 rest G' Gout Hn Hps Hev Hex Hhd Hd Hb Hne Hsc Hp IH].
     - left. reflexivity.
     - rewrite ptoks_blank. destruct e; [exact IH|]. right. eexists; eexists. split; [reflexivity|exact I].
     - right. rewrite (ptoks_cons nl i e st rest Hbl). destruct (sok_head B fx F _ _ _ 0 Hso) as (t0 & ts & -> & Hs).
       eexists; eexists. split; [reflexivity|apply start_top, Hs].
     - right. rewrite (ptoks_cons nl i e (FmtAst.SFunc n rt ps v [] body []) rest eq_refl). cbn [app].
       rewrite (func_toks n rt ps v body _ Hn Hrt Hps Hv). eexists; eexists. split; [reflexivity|exact I].
+    - right. rewrite (ptoks_cons nl i e (FmtAst.SOn n ps [] body []) rest eq_refl).
+      rewrite (on_toks n ps body _ Hn Hps). eexists; eexists. split; [reflexivity|exact I].
   Qed.
 
   Lemma ptoks_skip nl i bd hs G e body Gout : fpoks nl i bd hs G e body Gout ->
@@ -659,12 +840,28 @@ Section Funcs.
     - rewrite Fn'. exact Fn.
   Qed.
 
+  Lemma ST_post_on f s q G st s' q' :
+    ST F s q G top_fr -> parse_event_handler B f s = Ok (Some st) s' -> at_toks s' q' [] -> peek_ok s' q' ->
+    exists G', scope_stmt TB st G = Some G' /\ ST F s' q' G' top_fr.
+  Proof.
+    intros (A0 & _ & N & U & A & Fr & Fn) P A1 P1.
+    assert (Q : serrs s' = []) by (destruct A1 as (_ & _ & E); exact E).
+    destruct (event_handler_sound B f s (Some st) s' P Q) as (_ & Fr' & _).
+    destruct (event_handler_sim B f s (Some st) s' P Q (conj N U)) as (U' & Fn' & _ & Sc).
+    exists (abs s'). rewrite Fn, A in Sc. split; [exact Sc|].
+    repeat split; try (destruct A1 as (R1 & W1 & E1); assumption); auto.
+    - eapply scs_of_frames; [exact Fr' | exact N].
+    - rewrite Fr'. exact Fr.
+    - rewrite Fn'. exact Fn.
+  Qed.
+
   Theorem program_loop_funcs nl : forall i bd hs G e body Gout, fpoks nl i bd hs G e body Gout ->
     forall fuel acc s, psz nl i e body < fuel -> ST F s (ptoks nl i e body) G top_fr -> kb s = (bd, hs) ->
     exists s', program_loop B fuel acc false s = Ok (rev acc ++ prog_trees nl i e body) s' /\ ST F s' [] Gout top_fr.
   Proof.
     induction 1 as [i bd hs G e | i bd hs G e rest Gout Hp IH | i bd hs G e st rest G' Gout Hbl Hso Hat Hsc Hp IH
-                   | i bd hs G e n rt ps v body fi G1 rest G' Gout Hn Hrt Hps Hv Hsig Hbd Hd Hb Hne Hterm Hsc Hp IH];
+                   | i bd hs G e n rt ps v body fi G1 rest G' Gout Hn Hrt Hps Hv Hsig Hbd Hd Hb Hne Hterm Hsc Hp IH
+                   | i bd hs G e n ps body ex G1 rest G' Gout Hn Hps Hev Hex Hhd Hd Hb Hne Hsc Hp IH];
       intros fuel acc s Hfu HST HK.
     - destruct fuel as [|fuel]; [lia|]. change (ptoks nl i e []) with (@nil token) in HST.
       exists s. cbn [program_loop prog_trees]. rewrite app_nil_r.
@@ -715,6 +912,31 @@ Section Funcs.
       rewrite Hsc in Hsc'. injection Hsc' as <-. rewrite Hr2 in HST1.
       assert (K1' : kb s1 = (n :: bd, hs)) by (rewrite K1; injection HK as -> ->; reflexivity).
       unfold st in HST. rewrite (func_toks n rt ps v body r Hn Hrt Hps Hv) in HST.
+      assert (E1 : program_loop B (S fuel) acc false s = program_loop B fuel (stmt_tree st :: acc) false s1).
+      { cbn [program_loop]. rewrite (ST_ct F _ _ _ _ _ HST). cbn [ttype mk]. rewrite P. reflexivity. }
+      rewrite E1. unfold r, nl_toks in HST1. unfold nl_toks in Hfu.
+      destruct (mem_nat i nl).
+      + cbn [app] in HST1. destruct fuel as [|[|fuel]]; try lia.
+        destruct (nl_turn fuel (stmt_tree st :: acc) s1 _ G' HST1 ltac:(rewrite Sk; exact Nw)) as (E & HST' & K').  rewrite Sk in HST'.
+        destruct (IH (S fuel) (Parser.SEmpty :: stmt_tree st :: acc) (adv s1) ltac:(lia) HST' ltac:(rewrite K'; exact K1')) as (s' & P2 & Q).
+        exists s'. split; [|exact Q]. rewrite E, P2. cbn [rev app]. rewrite <- !app_assoc. reflexivity.
+      + cbn [app] in HST1. destruct (IH fuel (stmt_tree st :: acc) s1 ltac:(lia) HST1 K1') as (s' & P2 & Q).
+        exists s'. split; [|exact Q]. rewrite P2. cbn [rev app]. rewrite <- !app_assoc. reflexivity.
+    - set (st := FmtAst.SOn n ps [] body []) in *.
+      rewrite (ptoks_cons nl i e st rest eq_refl) in HST. cbn [psz] in Hfu. cbn [prog_trees]. change (is_blank st) with false in *. cbv iota in Hfu |- *.
+      destruct fuel as [|fuel]; [lia|].
+      destruct (ptoks_skip nl _ _ _ _ _ _ _ Hp) as [Sk Nw].
+      set (r := nl_toks nl i ++ ptoks nl (S i) false rest) in *.
+      assert (Hr : is_ws (look0 (skip1 r)) = false /\ skip1 r = r).
+      { unfold r, nl_toks. destruct (mem_nat i nl); cbn [app]; [split; reflexivity|]. rewrite Sk. auto. }
+      destruct Hr as [Hr1 Hr2].
+      assert (Hhd' : mem_str n (hds s) = false) by (injection HK as _ ->; exact Hhd).
+      assert (Hsz : S (szl body) <= fuel) by (unfold st in Hfu; rewrite sz_on in Hfu; lia).
+      destruct (on_rt fuel s n ps body r G ex G1 Hn Hps Hev Hex Hhd' Hd Hb Hne Hsz HST Hr1) as (s1 & P & A1 & P1 & K1).
+      destruct (ST_post_on fuel s _ G (stmt_tree st) s1 _ HST P A1 P1) as (G'' & Hsc' & HST1).
+      rewrite Hsc in Hsc'. injection Hsc' as <-. rewrite Hr2 in HST1.
+      assert (K1' : kb s1 = (bd, n :: hs)) by (rewrite K1; injection HK as -> ->; reflexivity).
+      unfold st in HST. rewrite (on_toks n ps body r Hn Hps) in HST.
       assert (E1 : program_loop B (S fuel) acc false s = program_loop B fuel (stmt_tree st :: acc) false s1).
       { cbn [program_loop]. rewrite (ST_ct F _ _ _ _ _ HST). cbn [ttype mk]. rewrite P. reflexivity. }
       rewrite E1. unfold r, nl_toks in HST1. unfold nl_toks in Hfu.
